@@ -37,6 +37,13 @@ def run(ctx: core.Ctx):
     ]
     ctx.lean_prepare()
     synthetic_streams(ctx)
+    # the real GHE.size on synthetic temperature curves (upper and lower limit each with its own
+    # curve): the returned height must be where the LARGER of the two excesses is zero (clamped)
+    for c in searchlib.size_cases(ctx.rng, 400 if ctx.tier == "quick" else 4000):
+        res = searchlib.real_size(c)
+        ctx.case(("size", repr(c)), True)
+        ctx.count("size-curves:" + ("both-limits" if len(c) > 6 else "upper-limit-only"))
+        searchlib.check_size_predicate(ctx, c, res)
     cfgs, recs, cached = designlib.get_runs(ctx)
     ctx.extra["runs_from_cache"] = cached
     rps = [designlib.replay_line(r) for r in recs]
@@ -66,9 +73,25 @@ def run(ctx: core.Ctx):
         ctx.case((g, cfg["pipe"], cfg["flow_type"], r["loads_sha"], cfg["months"], repr(cfg["geom"][1:4])), True,
                  {"id": r["id"], "geom": g, "pipe": cfg["pipe"], "profile": cfg["profile"], "scale": cfg["scale"], "months": cfg["months"],
                   "outcome": r["outcome"], "nbh": r.get("nbh"), "H": r.get("H")} if i < 3 else None)
+        if "boundary" in r:
+            ctx.count(f"window-end-{r['boundary']['side']}")
+        # every field the search evaluated was simulated with the requested flow (both flow types)
+        for e in r.get("evals", []):
+            if "mflow" not in e or not e["nbh"]:
+                continue
+            want = (cfg["flow"] if cfg["flow_type"] == "BOREHOLE" else cfg["flow"] / e["nbh"]) / 1000.0 * e["rho"]
+            want_sys = cfg["flow"] * e["nbh"] if cfg["flow_type"] == "BOREHOLE" else cfg["flow"]
+            if abs(e["mflow"] - want) > 1e-9 * abs(want) or abs(e["vsys"] - want_sys) > 1e-9 * abs(want_sys):
+                ctx.finding("search-flow-not-as-requested", f"{g}/{cfg['flow_type']}: a {e['nbh']}-borehole candidate was simulated with {e['mflow']:.6g} kg/s per borehole "
+                            f"(system {e['vsys']:.6g} L/s); requested {want:.6g} kg/s (system {want_sys:.6g} L/s)",
+                            {"cfg": r["cfg"], "evaluation": e, "requested_mass_flow_per_borehole": want})
+                break
         if r["outcome"] != "design":
             continue
         esc = designlib.is_escape(r)
+        if "boundary" in r and r.get("roots"):
+            fe = r["roots"][-1]["f_lower"] if r["boundary"]["side"] == "low" else r["roots"][-1]["f_upper"]
+            ctx.count("window-end-excess:" + ("<=1e-3" if abs(fe) <= 1e-3 else "1e-3..1e-2" if abs(fe) <= 1e-2 else ">1e-2"))
         ctx.count("escape" if esc else "non-escape-design")
         ea = designlib.excess_of(cfg, *r["oracle_a"])
         eb = designlib.excess_of(cfg, *r["oracle_b"])
